@@ -196,6 +196,7 @@ def run(ctx):
         limit = spec["ss2022_max_payload"] if is2022 else spec["legacy_max_payload"]
         ctx.ob("S2", b.defp, "max-chunk-payload", loc(t["sp"]), maxlen <= limit,
                f"encoder may emit payload chunks of up to {k} - {tag} - {size_bytes} = {maxlen} bytes; the specification allows at most {limit} (0x{limit:X})")
+    s6_length_read_exactly(ctx, bodies)
     # first-chunk length in the 2022 header
     for b in bodies:
         if b.defp.endswith("aead_2022::tcp::new_header"):
@@ -434,5 +435,75 @@ def _encoder_limit_shape(prog):
         fwd, fcalls, _ = b.slice_fwd([t["dest"][0]])
         to_chunk = any(cc.target.startswith("octo_squirrel") for (_, cc, _, i) in fcalls)
         if ok_arg and to_chunk:
+            return True
+    return False
+
+
+LEN_READS = ("Buf::get_u16", "Buf::get_u16_le", "u16::from_be_bytes")
+
+
+def s6_length_read_exactly(ctx, bodies):
+    """S6: receivers take a chunk's length field at face value. In the authenticators (the structs that own the AEAD primitive and its nonce
+    generator) the value read from the opened length field reaches the function's result through casts and additions only: a mask, modulo,
+    shift or clamp applied on every path shortens chunks that a conforming sender may emit (Shadowsocks 2022: 0..=0xFFFF, VMess: 16 bits)."""
+    from .common import aead_roles
+    prog = ctx.prog
+    auths, _ = aead_roles(prog)
+    n = 0
+    for b in bodies:
+        if (b.impl_self_def or "") not in auths or b.root != b.defp:
+            continue
+        reads = [(blk, c, t) for (blk, c, t) in b.calls() if c.name in LEN_READS]
+        if not reads:
+            continue
+        # which 2022 constructors build this authenticator (a legacy-only authenticator may mask the two reserved SIP004 bits)
+        a_path = b.impl_self_def
+        used_2022 = _built_next_to(prog, a_path, lambda c: c.target.startswith("blake3::derive_key") or c.path == "blake3::derive_key")
+        rets = b.return_blocks()
+        for (blk, c, t) in reads:
+            n += 1
+            fwd, _, _ = b.slice_fwd([t["dest"][0]])
+            bad = []
+            for blk2 in b.rpo():
+                for s in b.stmts(blk2):
+                    if s["k"] != "assign" or s["rv"]["k"] not in ("bin", "checked_bin") or s["p"][0] not in fwd:
+                        continue
+                    op = s["rv"]["op"].replace("WithOverflow", "")
+                    if op in ("Add",):
+                        continue
+                    if not any(op_place(o) and op_place(o)[0] in fwd for o in b.operands_of_rvalue(s["rv"])):
+                        continue
+                    k = [op_int(o) for o in b.operands_of_rvalue(s["rv"]) if op_int(o) is not None]
+                    if op == "BitAnd" and k and k[0] >= 0xFFFF:
+                        continue
+                    if op == "BitAnd" and k and k[0] == 0x3FFF and not used_2022 and "vmess" not in b.defp:
+                        continue        # SIP004 receivers may ignore the two reserved bits of a legacy chunk length
+                    # the places where the (derived) length becomes the function's result
+                    sinks = [bx for bx in b.rpo() for sx in b.stmts(bx) if sx["k"] == "assign" and sx["p"][0] == 0
+                             and any(op_place(o) and op_place(o)[0] in fwd for o in b.operands_of_rvalue(sx["rv"]))]
+                    sinks += [bx for (bx, cx, tx) in b.calls() if tx["dest"][0] == 0 and any(op_place(a) and op_place(a)[0] in fwd for a in tx["args"])]
+                    if sinks and all(b.dominates(blk2, bx) for bx in sinks):
+                        bad.append((op, k, s))
+            for (blk2, c2, t2) in b.calls():
+                if c2.method in ("min", "clamp") and any(op_place(a) and op_place(a)[0] in fwd for a in t2["args"]):
+                    bad.append((c2.name, [], t2))
+            ctx.ob("S6", b.defp, "length-field-taken-at-face-value", loc(t["sp"]), not bad,
+                   "the opened length reaches the result through casts and additions only" if not bad else
+                   f"the length read from the wire is reduced on every path ({', '.join(op + (' ' + hex(k[0]) if k else '') for (op, k, _) in bad)})"
+                   + (": this authenticator also decodes Shadowsocks 2022 chunks, whose length field uses all 16 bits (0..=0xFFFF) — a conforming peer's larger chunk is cut short and the stream fails authentication" if used_2022 else ""))
+    ctx.floor("S6", "length-field reads in authenticators", 2, n)
+
+
+def _built_next_to(prog, struct_path, pred, depth=3):
+    """is the struct constructed (its `new` called or an aggregate built) by a function whose flattened body also makes a call matching pred?"""
+    for b in prog.prod_bodies():
+        if b.root != b.defp or "::_" in b.defp:
+            continue
+        direct = any((c.self_def or "") == struct_path and c.method == "new" for (_, c, _) in b.calls()) or \
+            any(s["k"] == "assign" and s["rv"]["k"] == "agg" and s["rv"].get("def") == struct_path for blk in b.rpo() for s in b.stmts(blk))
+        if not direct or (b.impl_self_def or "") == struct_path:
+            continue
+        fb = prog.flat(b.defp, max_depth=depth)
+        if any(pred(c) for (_, c, _) in fb.calls()):
             return True
     return False
